@@ -1,6 +1,6 @@
 CONSTANTS NT = 3 NTh = 3 NI = 3 ReuseIdents = FALSE Deviations = {} MaxOps = 3 Apis = {"threading", "lowlevel"}
           NPre = 1 Names = {1, 3} IgnNames = {3} DummyIgn = {TRUE, FALSE} MaxX = 2
-          KeepHist = FALSE RenameSame = FALSE
+          KeepHist = FALSE RenameSame = FALSE NHook = 0
 SPECIFICATION Spec
 INVARIANT Precise
 CHECK_DEADLOCK FALSE
